@@ -182,7 +182,11 @@
   hy.models.FComponent
   (fn [x] (+
     "{"
-    (hy-repr (get x 0))
+    ; A form that begins with a brace, such as a dictionary literal,
+    ; needs a space, since `{{` would be read as an escaped brace.
+    (do
+      (setv value (hy-repr (get x 0)))
+      (if (.startswith value "{") (+ " " value) value))
     (if x.conversion f" !{x.conversion}" "")
     (if (> (len x) 1)
       ; A format spec can have several components, such as the
